@@ -289,6 +289,8 @@ pub fn integ_decl() -> impl Strategy<Value = IntegDecl> {
         1 => Just(IntegDecl::WrongTail),
         1 => Just(IntegDecl::CaseToggled),
         1 => Just(IntegDecl::MultiWeakerOfOther),
+        1 => Just(IntegDecl::MultiStrongerOfOther),
+        1 => Just(IntegDecl::NoHashes),
     ]
 }
 
@@ -348,7 +350,7 @@ pub struct WriteMix {
 pub fn write_spec(mix: WriteMix, nkeys: usize, nblobs: usize) -> impl Strategy<Value = WriteSpec> {
     (
         (any::<u16>(), any::<u16>(), any::<bool>(), algo(), wentry()),
-        (chunks(), declare(mix.bad_decls), if mix.bad_decls { integ_decl().boxed() } else if mix.rich_matching { integ_decl_matching().boxed() } else { prop_oneof![Just(IntegDecl::None), Just(IntegDecl::Correct)].boxed() }),
+        (chunks(), declare(mix.bad_decls), if mix.bad_decls { integ_decl().boxed() } else { integ_decl_matching().boxed() }),
         (proptest::option::weighted(0.3, time_text()), proptest::option::weighted(0.3, json_value()), proptest::option::weighted(0.25, raw_meta()), any::<bool>()),
         (prop_oneof![3 => Just(0u8), 1 => 3u8..6], prop_oneof![12 => Just(Interfere::None), 1 => Just(Interfere::Clear), 1 => Just(Interfere::RemoveTmp), 1 => Just(Interfere::RemoveContentArea)],
          prop_oneof![8 => Just(0u16), 2 => 1u16..4, 1 => Just(1025u16), 1 => Just(1500u16)],
